@@ -361,4 +361,90 @@ CHECKS = {
             {"name": "TestC07L1", "quick": 1600, "thorough": 120000},
         ],
     },
+    "C16": {
+        "level": "fault_enumeration",
+        "rule": "a client configured to reconnect talks to the server through a byte-forwarding proxy that delimits and counts JSON-RPC "
+                "messages per direction. A scenario is a script of one-at-a-time actions (set up 1-3 monitors of drawn methods over disjoint "
+                "tables, own transactions writing unique markers, foreign transactions by a second client attached directly to the server "
+                "that insert, update and delete rows, echo). TestC16Fixed: one fixed two-monitor scenario is first run fault-free to count "
+                "the M message boundaries, then re-run once for EVERY boundary k <= M, in both directions, with the connection cut after "
+                "message k, inside it (half the bytes forwarded) and before it - i.e. during connect, schema fetch, monitor set-up, between "
+                "and inside notifications, with a transaction in flight (exhaustive for that scenario). TestC16 draws scenarios and, in the "
+                "quick tier, one sampled first cut plus (30%) a second cut on the re-established connection or (10%) a silent stall detected "
+                "by the inactivity probe; in the thorough tier half of the drawn scenarios are enumerated completely. Oracle after the plan "
+                "is exhausted: Connected() within 60 s; after a barrier transaction by the direct client, for every established monitor "
+                "cache = Database.List (no resurrected, no missing row); every own Transact that returned results left exactly one marker "
+                "row, every one that returned an error at most one. Non-trivial = cut after the 6th message (monitor set-up begun); "
+                "distinct = (scenario, direction, k, mode).",
+        "assumptions": COMMON_ASSUMPTIONS + [
+            "enumerated scenarios run without the inactivity probe so that the fault-free message sequence is the same in every run up to the cut",
+            "the keep-the-cache path of monitor_cond_since (found=true) is unreachable with libovsdb's server, which always answers found=false",
+            "leader-only mode is not exercised (needs a second server exporting _Server; see DESIGN.md)",
+            "a Monitor call that fails because of the cut is not re-issued: only monitors that were established are compared",
+        ],
+        "level_text": "fault enumeration: every message boundary x direction x {after, inside, before} of a fixed session is cut exactly once "
+                      "(complete for that session), plus sampled scenarios, double cuts and stalls; complete cache/database comparison after "
+                      "every recovery",
+        "level_note": "the first cut is enumerated, repeated cuts and probe timing are sampled; TCP half-open states are not modelled (unix sockets)",
+        "technique": "fault injection by a message-counting proxy, exhaustive enumeration of cut points + property-based sampling (rapid)",
+        "tests": [
+            {"name": "TestC16Fixed", "kind": "plain", "quick": 8, "thorough": 16, "shards": {"quick": 8, "thorough": 16}},
+            {"name": "TestC16", "quick": 320, "thorough": 1600},
+        ],
+    },
+    "C17": {
+        "rule": "built with -race. One server; 2-5 clients run drawn programs of 3-14 transactions each concurrently (counter += d, insert-if-absent "
+                "on a unique index value shared with other clients, move a strong reference between two parents, compare-and-set via "
+                "wait+update), every transaction also inserting a uniquely tagged log row; 1-3 raw monitoring peers (monitor / monitor_cond on "
+                "all tables) and one caching client (MonitorAll) are attached. Oracles: the tag order pi in a monitor's stream is a permutation "
+                "of exactly the committed transactions (one notification each, none for failed ones), identical at every monitor, consistent "
+                "with each client's program order and with real time (A returned before B was sent => A before B); replaying the committed "
+                "transactions in order pi on refdb reproduces every count/uuid each client received and the final Database.List; every failed "
+                "transaction fails at some position of pi compatible with its client's order; closed forms: counters = sum of committed "
+                "deltas, each contested key has exactly one winner; the caching client's cache equals the database at the end; no race report "
+                "involving libovsdb code. TestC17MonitorWindow pins, with the server-side verif hook, a monitor set-up between 'monitors "
+                "notified' and 'committed'. Non-trivial = run in which transactions of different clients overlapped in time at least "
+                "twice (measured by invocation/response timestamps); distinct = the observed order pi.",
+        "assumptions": COMMON_ASSUMPTIONS + [
+            "schedules are whatever the Go scheduler produces on this machine plus the one pinned window; a rarer interleaving can be missed",
+            "race reports whose two racing accesses are both inside third-party modules (the JSON-RPC library writes responses of "
+            "concurrent handlers through one encoder) are counted in evidence and not attributed to libovsdb",
+        ],
+        "level_text": "exploration of schedules: concurrent generated programs with a serial-order oracle derived from the monitor stream, under the race detector",
+        "level_note": "a failing run is reported with its programs and observed order (not reproducible from a seed: the schedule is not owned by the harness)",
+        "technique": "property-based testing (rapid) of concurrent programs: history checking against a serial replay on the reference model, race detector as instrumented oracle",
+        "race": True,
+        "tests": [
+            {"name": "TestC17MonitorWindow", "kind": "plain", "quick": 1, "thorough": 1, "shards": {"quick": 1, "thorough": 1}},
+            {"name": "TestC17", "quick": 160, "thorough": 6400},
+        ],
+    },
+    "C18": {
+        "rule": "built with -race. TestC18Enumerated enumerates completely 18 ways an API call can fail (Monitor with option errors / no tables / "
+                "unknown table / unsupported method / cancelled context / not connected; Transact failing validation, on an unknown table, with "
+                "an expired context, not connected, rejected by the server; MonitorCancel; Echo against a mute server; Get miss; List with a "
+                "wrong or non-pointer type; Where without models; Create of a foreign model) x 7 follow-up calls (Disconnect+Connect, "
+                "Close+Connect, Monitor, Transact, Get, Echo, List) x monitor present or not = 252 combinations: every call returns within "
+                "20 s (contexts allow 2 s) and an epilogue Close, Connect, Echo, Monitor, Get of a seeded row succeeds. TestC18Concurrent: 2-4 "
+                "goroutines run drawn lists of 4-14 calls (Get, List, Where.List, WhereCache.List, Cache().Rows, Transact, Monitor, MonitorCancel, "
+                "Echo, Disconnect, Connect, Close) on one client, with and without reconnect, while a writer commits transactions that keep "
+                "two columns of every row equal and a chaos goroutine cuts the connection 0-3 times through the proxy: no call may exceed "
+                "the bound (a hang is reported with the blocked goroutines' stacks), no reader may obtain a row whose two columns differ, "
+                "the epilogue must succeed, no race report involving libovsdb code. Non-trivial = every enumerated combination; concurrent "
+                "runs with >=2 calls overlapping a notification or with >=1 cut; distinct = (combination) / (programs, cuts, reconnect).",
+        "assumptions": COMMON_ASSUMPTIONS + [
+            "liveness verdicts use a 20 s bound for calls whose contexts expire after 1.5-2 s, and the report carries the stacks of the goroutines parked in libovsdb/client",
+            "the monitors of one client cover disjoint tables (a second initial dump of a cached row is a Create of an existing row)",
+            "third-party-only race reports are not attributed to libovsdb (see C17)",
+        ],
+        "level_text": "exhaustive enumeration of (failing call, follow-up) pairs + exploration of concurrent schedules with connection chaos under the race detector",
+        "level_note": "this family cannot establish race freedom or liveness; it explores schedules and bounds waiting generously",
+        "technique": "enumeration of failure/follow-up combinations + property-based concurrent call lists (rapid), watchdog and torn-read oracles, race detector",
+        "race": True,
+        "hang_is_violation": True,
+        "tests": [
+            {"name": "TestC18Enumerated", "kind": "plain", "quick": 1, "thorough": 1, "shards": {"quick": 1, "thorough": 1}},
+            {"name": "TestC18Concurrent", "quick": 96, "thorough": 3200, "shards": {"quick": 8, "thorough": 16}},
+        ],
+    },
 }
